@@ -43,6 +43,36 @@ pub fn model_release<S: Source>(s: &mut S) {
     forget((init, costf));
 }
 
+/// after an optimizer update and the drop of every result, a handle the caller kept on the
+/// pre-update parameter is the sole owner of its buffer: the new parameter does not hold its
+/// predecessor (no chain of old parameters builds up over a training run)
+pub fn update_release<S: Source>(s: &mut S, updates: usize) {
+    use corgi::optimizer::gd::GradientDescent;
+    use corgi::optimizer::Optimizer;
+    let lr = s.lr();
+    let gd = GradientDescent::new(lr);
+    let mut p = mk(s, &[2], Dom::D4).tracked();
+    let first = p.clone();
+    for _ in 0..updates {
+        let x = mk(s, &[2], Dom::D4);
+        let r = &p * &x;
+        r.backward(None);
+        drop(r);
+        gd.update(vec![&mut p]);
+        let v: Vec<Float> = x.into();
+        forget(v);
+    }
+    #[cfg(any(kani, corgi_verif))]
+    {
+        chk!(p.verif_children().is_empty(), "[c18:param-graph] an updated parameter holds a graph (its predecessors)");
+        chk!(first.verif_values_owners() == 1, "[c18:owners] a hidden alias of the pre-update parameter survived");
+    }
+    let v: Vec<Float> = first.into();
+    forget(v);
+    witness();
+    forget(p);
+}
+
 /// build, optionally pass (once or twice), drop every derived handle, then unwrap every leaf
 pub fn release<P: Program, S: Source>(s: &mut S, p: &P, leaves: &[Leaf], passes: usize, keep_gradients: bool) {
     let b = build(s, leaves);
